@@ -196,7 +196,8 @@ def api_run(name, tier, seed, cfgs):
     api_defs = os.path.join(capdir, "defs_api_%s.ndjson" % key)
     with open(api_defs, "w") as f:
         f.write(blob)
-    # two explorations: the histories over one source buffer up to maxops operations, and - one operation shorter - the
+    # two explorations: the histories over one source buffer up to maxops operations, and - one operation shorter (two in the
+    # thorough tier, where the second exploration would otherwise be as large as the first) - the
     # histories in which a lexer over a SECOND buffer takes part (f = fresh lexer over buffer 2, k = clone_from)
     res = run_tlc("LexerAPI.tla", "LexerAPI.cfg", {"DEFS": api_defs, "MAXLEN": str(maxlen), "MAXOPS": str(maxops), "FRESH": "0"}, workers=8,
                   metaname="api", timeout=6000, xss="512m")
@@ -204,7 +205,7 @@ def api_run(name, tier, seed, cfgs):
         raise ToolError("LexerAPI.tla: SpanInv violated at specification level:\n" + res["out"][-3000:])
     recs = [r[2] for r in tlc_records(res) if r[0] == "API"]
     log("[api] TLC %d states, %d distinct, %d states with operations, %.1fs" % (res["states"], res["distinct"], len(recs), res["wall"]))
-    res2 = run_tlc("LexerAPI.tla", "LexerAPI.cfg", {"DEFS": api_defs, "MAXLEN": str(maxlen), "MAXOPS": str(maxops - 1), "FRESH": "1"}, workers=8,
+    res2 = run_tlc("LexerAPI.tla", "LexerAPI.cfg", {"DEFS": api_defs, "MAXLEN": str(maxlen), "MAXOPS": str(maxops - 1 if tier == "quick" else maxops - 2), "FRESH": "1"}, workers=8,
                    metaname="api2", timeout=6000, xss="512m")
     if not res2["ok"]:
         raise ToolError("LexerAPI.tla (second buffer): SpanInv violated at specification level:\n" + res2["out"][-3000:])
